@@ -220,6 +220,21 @@ def run(tier, seed, model):
         camp.count("version:" + version.decode())
         camp.count("security:" + ("vnc-response" if any(len(h) == 16 for h in hs) else "none"))
         camp.nontrivial.add((version, pwreq, tuple(d for d, _ in msgs)))
+        # other viewer connections of the same vnclog process must not leak into this one: one that hung up in the middle
+        # of a message before, and one that is still waiting for the rest of a split message
+        if i % 3 == 0:
+            dead = Proxy(password_required=False, t0_ticks=0)
+            for h in viewer_handshake(b"003.008"):
+                dead.from_viewer(h)
+            dead.from_viewer(pointer_event(0, 7, 9)[:4])
+            dead.lose()
+            other = Proxy(password_required=False, t0_ticks=0)
+            for h in viewer_handshake(b"003.008"):
+                other.from_viewer(h)
+            other.from_viewer(key_event(1, 0x61)[:5])
+            camp.count("with-other-connections")
+        else:
+            other = None
         for kind, chunks in deliveries:
             camp.evaluations += 1
             camp.count("delivery:" + kind)
@@ -232,6 +247,13 @@ def run(tier, seed, model):
             if model is not None:
                 reqs.append(("proxy_run", [pwreq, 0, [[tt, d] for tt, d in chunks]]))
                 meta.append((per_chunk, kind, i))
+        if other is not None and not camp.oracle_failures:
+            err = other.from_viewer(key_event(1, 0x61)[5:])
+            got = None if err is not None else parse_script(other.script())
+            if err is not None or [g[2:] for g in got] != [["keydown", "a"]]:
+                camp.oracle_failures.append({"kind": "oracle", "property": "C17", "case": {"pwreq": False, "chunks": []},
+                                             "what": f"a second viewer connection whose KeyEvent was split around another connection's session recorded "
+                                                     f"{got if err is None else repr(err)} instead of its own single keydown a"})
         if len(camp.oracle_failures) >= 3:
             break
         if len(camp.samples) < 4 and i % 101 == 0:
